@@ -514,8 +514,22 @@ def oracle(st0, opts, aux=None, reverse=False):
     return st
 
 
-def compare(expected_st, observed_nf):
+def layout(nf):
+    """what every format of the plumbing runs carries: frames in order with identifier, name, length and the signals' names,
+    positions, widths, byte order, signedness and scaling"""
+    return dict(order=list(nf["frame_order"]),
+                frames={k: dict(name=f["name"], size=f["size"],
+                                signals={n: (sg["start"], sg["size"], sg["le"], sg["signed"], sg["factor"], sg["offset"])
+                                         for n, sg in f["signals"].items()},
+                                signal_order=list(f["signal_order"]))
+                        for k, f in nf["frames"].items()})
+
+
+def compare(expected_st, observed_nf, level="full"):
     """list of differences between the oracle's description and the re-read output"""
+    if level == "layout":
+        exp = finalize({k: v for k, v in expected_st.items() if not k.startswith("_")})
+        return matgen.diff(layout(exp), layout(observed_nf))
     exp = finalize(expected_st)
     selected = exp.pop("_selected", False)
     merged = exp.pop("_merged", False)
@@ -702,7 +716,9 @@ class Runner:
         self._orig[0]({"": db}, path)
         return path
 
-    def cli_args(self, opts, style):
+    CLI_PLUMB = {"import_type": "-i", "force_output": "-f"}
+
+    def cli_args(self, opts, style, plumb=None):
         args = []
         for i, (k, v) in enumerate(opts):
             if k in SWITCHES:
@@ -711,24 +727,33 @@ class Runner:
                 args.append("--%s=%s" % (k, v))
             else:
                 args += ["--" + k, v]
+        for k, v in (plumb or {}).items():
+            if v is True:
+                args.append("--" + k)
+            elif k in self.CLI_PLUMB:
+                args += [self.CLI_PLUMB[k], v]
+            else:
+                args.append("--%s=%s" % (k, v))
         return args
 
-    def run(self, infile, opts, how, style=0, reread=True):
-        """how: 'fn' | 'cli'.  returns dict(status, exc, bytes, nf, db)"""
+    def run(self, infile, opts, how, style=0, reread=True, plumb=None, out_name=None, load_opts=None):
+        """how: 'fn' | 'cli'.  plumb: format / encoding options of canconvert (import_type, force_output, jsonExportAll,
+        dbc*Encoding) given on top; out_name: output file name (default out_<how>.dbc); load_opts: how to re-read the output.
+        returns dict(status, exc, bytes, nf, db)"""
         self.n += 1
-        out = os.path.join(self.tmp, "out_%s.dbc" % how)
+        out = os.path.join(self.tmp, ("%s_" % how) + out_name if out_name else "out_%s.dbc" % how)
         if os.path.exists(out):
             os.remove(out)
         self.captured = None
         try:
             if how == "fn":
-                kw = {}
+                kw = dict(plumb or {})
                 for k, v in opts:
                     kw[k] = True if k in SWITCHES else v
                 r = self.convert.convert(infile, out, **kw)
                 rc = 0
             else:
-                rc = self.cli.cli_convert.main(self.cli_args(opts, style) + [infile, out], standalone_mode=False)
+                rc = self.cli.cli_convert.main(self.cli_args(opts, style, plumb) + [infile, out], standalone_mode=False)
         except BaseException as e:          # noqa: click raises its own exception classes, SystemExit included
             if isinstance(e, (KeyboardInterrupt, MemoryError)):
                 raise
@@ -742,7 +767,7 @@ class Runner:
         if not reread:
             return dict(status="ok", rc=rc, bytes=data, nf=None, db=list(self.captured.values())[0] if self.captured else None)
         try:
-            nf = describe(self.load(out))
+            nf = describe(self.formats.loadp_flat(out, **(load_opts or {})))
         except Exception as e:              # noqa
             return dict(status="unreadable", exc=type(e).__name__, msg=str(e)[:200], bytes=data, db=None)
         db = None
@@ -1298,16 +1323,18 @@ def _run(chk, rng, thorough, ok, C, R, tmp):
                     how="canmatrix.convert.convert(in.dbc, out.dbc, **options) and cli_convert.main([...], standalone_mode=False)",
                     merge_file=(open(inp["other_path"], "rb").read().decode("iso-8859-1") if any(o == "merge" for o, _ in opts) else None))
 
-    def judge(inp, opts, style):
-        """returns (failure description | None, nontrivial, results)"""
-        st = inp["st"]
-        aux = [inp["other_st"]]
+    def judge(inp, opts, style, plumb=None, out_name=None, load_opts=None, st=None, aux=None, level="full", path=None):
+        """returns (failure description | None, nontrivial, results).  plumb/out_name/load_opts: see Runner.run; st / aux / path:
+        another input description, merge file description, input file than inp's; level: 'full' | 'layout' comparison"""
+        st = inp["st"] if st is None else st
+        aux = [inp["other_st"]] if aux is None else aux
         try:
             exp = oracle(st, opts, aux)
         except Silent as e:
             exp = None
             chk.count("oracle-silent")
-        res = {how: R.run(inp["path"], opts, how, style) for how in ("fn", "cli")}
+        res = {how: R.run(path or inp["path"], opts, how, style, plumb=plumb, out_name=out_name, load_opts=load_opts)
+               for how in ("fn", "cli")}
         fn, cl = res["fn"], res["cli"]
         fail = None
         if fn["status"] != cl["status"] or (fn["status"] == "ok" and fn["bytes"] != cl["bytes"]) or \
@@ -1329,7 +1356,7 @@ def _run(chk, rng, thorough, ok, C, R, tmp):
                     continue
                 if r.get("rc") not in (0, None):
                     fail = ("effect", "exit status", 0, r.get("rc"))
-                d = compare(exp, r["nf"])
+                d = compare(exp, r["nf"], level)
                 if d and (fail is None or fail[0] in ("cli-vs-function", "cli-option-missing")):
                     fail = ("effect", "output differs from the documented effect (%d difference(s), first ones shown)" % len(d),
                             {x[0]: short(x[1], 300) for x in d[:6]},
@@ -1483,6 +1510,9 @@ def _run(chk, rng, thorough, ok, C, R, tmp):
                                 break
                     chk.violation(key, "--%s --%s: %s" % (a, b, fail[1]), replay_input(inp, opts), fail[2], fail[3])
                 tie_direct(in_db, opts, res["fn"], dict(input=inp["idx"], interaction=kind, options=opts))
+
+    # ---- formats and encodings: the plumbing options of canconvert as a second dimension ----
+    formats_section(chk, rng, thorough, C, R, tmp, inputs, judge, replay_input)
 
     # ---- the command line knows every option convert() implements ----
     for opt in PIPELINE_ORDER:
@@ -1732,3 +1762,145 @@ def pdu_search(chk, C, db, opts, r):
         chk.violation("opt-ignorePduContainer-effect", "PDU containers are not %s as documented" % ("dropped" if ignore else "rewritten to multiplexed frames"),
                       dict(frames=[(f.name, [s.name for s in f.signals], [(p.name, p.id, [s.name for s in p.signals]) for p in f.pdus]) for f in db.frames],
                            options=opts), exp, got)
+
+
+# ------------------------------------------------------------------------------------------------------------------
+# formats and encodings
+FOREIGN = [("json", {"jsonExportAll": True}), ("dbf", {}), ("kcd", {}), ("sym", {})]
+
+
+def simple_matrix(rng, C, avoid_ids):
+    """a small matrix every format carries on the layout level (names, identifiers, lengths, signal positions and scaling)"""
+    db = matgen.gen_matrix(rng, C, n_frames=(2, 4), n_ecus=(2, 3), max_len=8, fd=False, ext_ids=False, attributes=False, comments=False,
+                           cycle_times=False, value_tables=False, mux="none", signed=True, floats=False, units=False, digits=2,
+                           unique_signal_names=True, max_width=32)
+    for f in list(db.frames):
+        f.name = "X" + f.name[1:]
+        for sg in f.signals:
+            sg.name = "X" + sg.name[1:]
+        if f.arbitration_id.id in avoid_ids:
+            db.frames.remove(f)
+    db._frames_dict_id_extend = {}
+    return db
+
+
+def formats_section(chk, rng, thorough, C, R, tmp, inputs, judge, replay_input):
+    dump, load = R._orig[0], R._orig[1]
+
+    def load_first(path, **o):
+        return list(load(path, **o).values())[0]
+
+    def through_dbc(db, name):
+        """the description of a matrix as a DBC file carries it"""
+        pth = os.path.join(tmp, name)
+        dump({"": db}, pth)
+        return describe(load_first(pth))
+
+    def report(key, what, inp, opts, exp, obs, extra):
+        chk.violation(key, what, dict(replay_input(inp, opts), **extra), exp, obs)
+
+    n_fmt = 2 if not thorough else 10
+    for inp in inputs[:n_fmt]:
+        in_db = load_first(inp["path"])
+        st = inp["st"]
+        F = [f["name"] for f in frames_in_order(st)]
+        ids_in = {f["id"] for f in st["frames"].values()}
+        api_dbc = os.path.join(tmp, "api_fmt.dbc")
+        dump({"": load_first(inp["path"])}, api_dbc)
+        api_dbc_bytes = open(api_dbc, "rb").read()
+
+        # -- (1) no options, other format pairs: convert in.X -> out.Y equals dump(load(in.X), Y) byte for byte
+        def same_as_api(src, ext, plumb, api_bytes, label, out_name=None):
+            for how in ("fn", "cli"):
+                r = R.run(src, [], how, reread=False, plumb=plumb, out_name=out_name or "fmt." + ext)
+                chk.case(("format-none", inp["idx"], label, how), True)
+                chk.count("format-no-options-" + label)
+                got = r.get("bytes")
+                if got is not None and ext == "kcd":          # the KCD writer names the bus after the output file
+                    stem = os.path.join(tmp, "%s_fmt" % how).encode()
+                    got = got.replace(stem, b"<out>")
+                if r["status"] != "ok" or got != api_bytes:
+                    report("no-options-differs", "canconvert %s without manipulation options does not produce what load + dump produces" % label,
+                           inp, [], "byte-identical to canmatrix.formats.dumpp(loadp(in), out)",
+                           r["status"] if r["status"] != "ok" else "different bytes (%d vs %d)" % (len(got), len(api_bytes)),
+                           dict(formats=label, plumbing=plumb, via=how))
+        for ext, fo in FOREIGN + [("json", {})]:
+            api = os.path.join(tmp, "api_fmt." + ext)
+            dump({"": load_first(inp["path"])}, api, **fo)
+            b = open(api, "rb").read()
+            if ext == "kcd":
+                b = b.replace(os.path.join(tmp, "api_fmt").encode(), b"<out>")
+            same_as_api(inp["path"], ext, fo, b, "dbc->%s%s" % (ext, "(all)" if fo else ""))
+        same_as_api(inp["path"], "txt", {"import_type": "dbc", "force_output": "dbc"}, api_dbc_bytes, "dbc->dbc(-i -f, out.txt)")
+        simple = simple_matrix(rng, C, ids_in)
+        for ext, fo, src_db in (("json", {"jsonExportAll": True}, in_db), ("sym", {}, in_db), ("dbf", {}, simple), ("json", {}, simple)):
+            src = os.path.join(tmp, "src_fmt." + ext)
+            dump({"": src_db}, src, **fo)
+            api = os.path.join(tmp, "api_back.dbc")
+            dump(load(src), api)
+            same_as_api(src, "dbc", {}, open(api, "rb").read(), "%s->dbc" % ext, out_name="back.dbc")
+            same_as_api(src, "dbc", {"import_type": ext}, open(api, "rb").read(), "%s->dbc(-i)" % ext, out_name="back.dbc")
+
+        # -- (2) the merge file in another format than the input, with and without the input format hint
+        other_dbc = inp["other_path"]
+        manip = [("merge", [("merge", other_dbc)]),
+                 ("frames", [("frames", F[0] + ",FGapFrame,FNope")]),
+                 ("deleteFrame", [("deleteFrame", F[-1] + "," + F[0])]),
+                 ("renameSignal", [("renameSignal", "SGap*:SG")]),
+                 ("deleteFrame+renameSignal", [("renameSignal", "*End:Fin"), ("deleteFrame", "FGapFrame")])]
+        for ext, fo in FOREIGN:
+            opath = os.path.join(tmp, "xother_%d.%s" % (inp["idx"], ext))
+            dump({"": simple}, opath, **fo)
+            ost = through_dbc(load_first(opath), "xother_norm.dbc")
+            for pname, plumb in (("plain", {}), ("input_format", {"import_type": "dbc"})):
+                for spec, tag in ((opath, "file"), (opath + ":frame=" + simple.frames[-1].name, "frame")):
+                    opts = [("merge", spec)]
+                    fail, nontrivial, res, exp = judge(inp, opts, 0, plumb=plumb, aux=[ost], level="layout")
+                    chk.case(("format-merge", inp["idx"], ext, pname, tag), nontrivial)
+                    chk.count("format-merge-%s-%s" % (ext, pname))
+                    if fail is not None:
+                        report("format-%s-merge" % pname if fail[0] == "effect" else fail[0],
+                               "--merge of a .%s file%s: %s" % (ext, " with -i dbc" if plumb else "", fail[1]), inp, opts, fail[2], fail[3],
+                               dict(plumbing=plumb, merge_file_format=ext,
+                                    merge_file=open(opath, "rb").read().decode("iso-8859-1")[:6000]))
+
+        # -- (3) format / encoding options on top of manipulation options
+        enc = {"dbcImportEncoding": "utf-8", "dbcImportCommentEncoding": "utf-8", "dbcExportEncoding": "utf-8",
+               "dbcExportCommentEncoding": "utf-8"}
+        enc_db = load_first(inp["path"])
+        enc_db.frames[0].add_comment("Gr\u00f6\u00dfe \u00b5 caf\u00e9")
+        for sg in enc_db.frames[0].signals[:1]:
+            sg.unit = "\u00b0C"
+        enc_path = os.path.join(tmp, "in_utf8.dbc")
+        dump({"": enc_db}, enc_path, dbcExportEncoding="utf-8", dbcExportCommentEncoding="utf-8")
+        enc_load = {"dbcImportEncoding": "utf-8", "dbcImportCommentEncoding": "utf-8"}
+        enc_st = describe(load_first(enc_path, **enc_load))
+        json_path = os.path.join(tmp, "in_all.json")
+        dump({"": in_db}, json_path, jsonExportAll=True)
+        json_st = through_dbc(load_first(json_path), "in_all_norm.dbc")
+        variants = [
+            ("input_format", dict(plumb={"import_type": "dbc"})),
+            ("force_output", dict(plumb={"force_output": "dbc"}, out_name="forced.txt", load_opts={"import_type": "dbc"})),
+            ("input+output_format", dict(plumb={"import_type": "dbc", "force_output": "dbc"}, out_name="forced.txt",
+                                         load_opts={"import_type": "dbc"})),
+            ("encoding", dict(plumb=enc, load_opts=enc_load, st=enc_st, path=enc_path)),
+            # (layout level: the JSON reader brings VFrameFormat back as an attribute but not Frame.is_fd, so what the DBC writer
+            # derives for FD frames depends on the other frames - a matter of the JSON round trip, C07, not of the options)
+            ("input-json", dict(st=json_st, path=json_path, level="layout")),
+            ("input-json(-i)", dict(plumb={"import_type": "json"}, st=json_st, path=json_path, level="layout")),
+            ("output-json", dict(plumb={"jsonExportAll": True}, out_name="o.json", level="layout")),
+            ("output-json(-f)", dict(plumb={"jsonExportAll": True, "force_output": "json"}, out_name="o.txt", level="layout",
+                                     load_opts={"import_type": "json"})),
+        ]
+        api = os.path.join(tmp, "api_enc.dbc")
+        dump(load(enc_path, **enc_load), api, dbcExportEncoding="utf-8", dbcExportCommentEncoding="utf-8")
+        same_as_api(enc_path, "dbc", enc, open(api, "rb").read(), "dbc->dbc(utf-8)", out_name="enc.dbc")
+        for vname, kw in variants:
+            for mname, opts in manip:
+                fail, nontrivial, res, exp = judge(inp, opts, 1, **kw)
+                chk.case(("format", inp["idx"], vname, mname), nontrivial)
+                chk.count("format-%s-%s" % (vname, mname))
+                if fail is not None:
+                    report("format-%s-%s" % (vname, mname) if fail[0] == "effect" else fail[0],
+                           "%s with %s: %s" % (" ".join("--" + o for o, _ in opts), vname, fail[1]), inp, opts, fail[2], fail[3],
+                           dict(plumbing=kw.get("plumb"), variant=vname))
